@@ -648,7 +648,20 @@ def _compact_domains(ctx: Ctx) -> None:
         if q is not None:
             r_rng.append((q, _bound(repo, rd, c.args[2], ren_r),
                           _bound(repo, rd, c.args[3], ren_r), c))
-    ctx.floor("reader_ranges", len(r_rng), 6)
+    ctx.count("reader_ranges", len(r_rng))
+    allc = _range_calls(rd, "check_to_int_range")
+    bad_src = [c for c in allc if not (isinstance(c.args[0], ast.Subscript)
+                                       and isinstance(c.args[0].value,
+                                                      ast.Name))]
+    ctx.ob("D19.4", rd, bad_src[0] if bad_src else rd.node,
+           not bad_src and len(r_rng) >= 6,
+           f"all {len(allc)} numeric fields of the compact string are "
+           "converted from their own text fragment" if not bad_src and len(
+               r_rng) >= 6 else
+           "a numeric field is not converted from its text fragment: "
+           + (ast.unparse(bad_src[0])[:80] if bad_src else
+              f"only {len(r_rng)} of 6 fields are range-checked"),
+           construct="compact fields converted")
 
     def lo_of(b: Any) -> int | None:      # smallest value a bound can take
         if isinstance(b, int):
@@ -807,11 +820,78 @@ def _compact(ctx: Ctx) -> None:
     # repetition defaults to 1 exactly when the writer omits it
     src_w = ast.unparse(wr.node)
     src_r = ast.unparse(rd.node)
-    ok_rep = "if repetitions == 1 else" in src_w and \
-        "1 if len(s) <= IDX_REPETITION else" in src_r
-    ctx.ob("D19.2", rd, rd.node, ok_rep,
-           "a missing third field means multiplicity 1 on both sides",
-           construct="compact multiplicity default", nontrivial=False)
+    del src_w, src_r
+    # writer: the 2-field form is emitted exactly when the multiplicity is 1
+    ok_rep_w = False
+    for n in ast.walk(wr.node):
+        if isinstance(n, ast.IfExp) and isinstance(
+                n.body, ast.JoinedStr) and isinstance(
+                n.orelse, ast.JoinedStr) and isinstance(
+                n.test, ast.Compare) and len(n.test.ops) == 1:
+            def nf(js: ast.JoinedStr) -> int:
+                return sum(1 for v in js.values if isinstance(
+                    v, ast.FormattedValue) and isinstance(
+                    v.value, ast.Name) and not v.value.id.endswith("SEP"))
+            tv = ast.unparse(n.test.left)
+            one = repo.const(mod, n.test.comparators[0]) == 1
+            rep_var = col_of.get(tv) == "IDX_REPETITION"
+            if one and rep_var:
+                if isinstance(n.test.ops[0], ast.Eq):
+                    ok_rep_w = nf(n.body) == 2 and nf(n.orelse) == 3
+                elif isinstance(n.test.ops[0], (ast.NotEq, ast.Gt)):
+                    ok_rep_w = nf(n.body) == 3 and nf(n.orelse) == 2
+    # reader: a row without third field gets multiplicity 1
+    ok_rep_r = False
+    for n in ast.walk(rd.node):
+        if isinstance(n, ast.IfExp) and isinstance(
+                n.test, ast.Compare) and len(n.test.ops) == 1:
+            t = n.test
+            if ast.unparse(t.left).replace(" ", "") == "len(s)" and \
+                    isinstance(t.comparators[0], ast.Name) and \
+                    t.comparators[0].id == "IDX_REPETITION":
+                short_true = isinstance(t.ops[0], ast.LtE)
+                short_false = isinstance(t.ops[0], ast.Gt)
+                dflt = n.body if short_true else n.orelse
+                ok_rep_r = (short_true or short_false) and repo.const(
+                    mod, dflt) == 1
+    ctx.ob("D19.2", rd, rd.node, ok_rep_w and ok_rep_r,
+           "the writer omits the multiplicity exactly when it is 1 and the "
+           "reader supplies 1 exactly when the field is missing"
+           if ok_rep_w and ok_rep_r else
+           f"multiplicity default broken: writer ok={ok_rep_w}, reader ok="
+           f"{ok_rep_r}", construct="compact multiplicity default")
+    # the decoded quantities reach the constructor parameters they belong to
+    new_fi = repo.func(mod.name, "Instance.__new__")
+    cparams = new_fi.params[1:]
+    call = next((n for n in ast.walk(rd.node) if isinstance(n, ast.Call)
+                 and isinstance(n.func, ast.Name)
+                 and n.func.id == "Instance"), None)
+    bind: list[str] = []
+    if call is None or call.keywords or len(call.args) != len(cparams):
+        bind.append("Instance(...) is not called with all parameters")
+    else:
+        for k, attr in enumerate(head or []):
+            if attr in cparams:
+                a = call.args[cparams.index(attr)]
+                if not (isinstance(a, ast.Name) and a.id == r_head.get(k)):
+                    bind.append(
+                        f"constructor parameter `{attr}` receives "
+                        f"`{ast.unparse(a)}`, but field {k} of the string "
+                        f"(written from self.{attr}) is read into "
+                        f"`{r_head.get(k)}`")
+        lst = call.args[-1]
+        apps = [n for n in ast.walk(loop or rd.node) if isinstance(
+            n, ast.Call) and isinstance(n.func, ast.Attribute)
+            and n.func.attr == "append" and ast.unparse(
+                n.func.value) == ast.unparse(lst)]
+        if len(apps) != 1 or loop is None:
+            bind.append("the rows read from the string are not collected "
+                        "into the matrix passed to the constructor")
+    ctx.ob("D19.2", rd, call or rd.node, not bind,
+           "name, bin width and bin height are passed to the constructor "
+           "parameters they were written from; every decoded row is "
+           "appended to the matrix" if not bind else "; ".join(bind),
+           construct="compact constructor binding")
 
 
 # ------------------------------------------------------------------ D19.3
